@@ -934,6 +934,15 @@ class Generator:
                 rule_bytestr(toks, it.open, it.end, edits, lg)
             for r in extra_rules:
                 r(toks, it.a0, it.end, edits, lg, it)
+            if not is_canary and it.open is not None and not (blk is not None and blk.stub) and not self.stub_all:
+                # float comparisons: Verus accepts `a > b` on f64 in exec code but leaves the result unspecified, so a comparison
+                # that rule R-f64-cmp did not consume makes every proof about that function fail for a reason that has nothing
+                # to do with the code; count the calls that produce a float and were not consumed
+                sg = sig_idx(toks, it.open, it.end)
+                calls = sum(1 for q in range(len(sg) - 3) if toks[sg[q]].text == "." and toks[sg[q + 1]].text == "fragmentation" and toks[sg[q + 2]].text == "(")
+                done = sum(1 for e in self.rule_log if e["file"] == relfile and e["item"] == fnpath and e["rule"].startswith("R-f64-cmp"))
+                if calls > done:
+                    info["f64_unrewritten"] = calls - done
             if blk is not None:
                 self._splice(it, blk, edits, info, is_canary)
             elif self.stub_all and it.open is not None:
